@@ -100,132 +100,174 @@ def detect_quirks(ctx):
   v, _ = verdict(lambda: geno.DNA(0.5, [geno.DNA(1)]).use_spec(spec))
   return dict(float_bind_kids=(v == 0))
 
+class Rec:
+  """What a worker process records for the parent: the same API as the parts of Ctx a spec needs."""
+  def __init__(self): self.events = []; self.cases = []; self.impl = []; self.descr = []; self.oracle = 0
+  def count(self, key, nontrivial=True, sample=None, kind=None): self.events.append(('count', key, nontrivial, sample, kind))
+  def hist(self, name, key, n=1): self.events.append(('hist', name, key, n))
+  def hit(self, sig, what, case): self.events.append(('hit', sig, what, case))
+  def add(self, case, out, d): self.cases.append(case); self.impl.append(out); self.descr.append(d)
+
+def process_spec(job):
+  """Everything the check does with one specification (runs in a worker process)."""
+  si, s, origin, seed, qtr, P = job
+  from pyglove.core import geno
+  rng = pyrandom.Random(seed)
+  ctx = Rec()
+  add = ctx.add
+  str_ = G.spec_tr(s)
+  try:
+    pg = G.to_pg(s)
+  except Exception as e:   # a generated spec the library refuses: generator bug, fail closed
+    raise RuntimeError('generated specification refused by the library: %s: %s' % (G.describe(s), e))
+  fin = G.is_finite(s)
+  sdesc = G.describe(s)
+  ctx.hist('spec_origin', origin); ctx.hist('spec_modes', mode_key(s)); ctx.hist('spec_points', G.count_points(s)); ctx.hist('spec_depth', G.depth(s))
+  nontriv = has_multi(s)
+  members = None
+  L = None
+  valid_sds = None
+  nvalid = G.size(s) if fin else None
+  if fin:
+    ctx.hist('space_size_log2', nvalid.bit_length())
+  if fin and nvalid <= P['limit']:
+    valid_sds = G.all_valid(s)
+    members = {G.freeze(G.normalize(sd)) for sd in valid_sds}
+    # (0) iteration, size, sweeping
+    L = list(pg.iter_dna())
+    sw = geno.Sweeping(); sw.setup(pg)
+    swl = []
+    try:
+      for _ in range(len(L) + 2): swl.append(sw.propose())
+    except StopIteration:
+      pass
+    size = pg.space_size
+    add([0, str_, P['limit'] + 5], [trlib.opt(None if size == -1 else size), [G.tree_tr(G.dna_to_tree(d)) for d in L],
+                                    [G.tree_tr(G.dna_to_tree(d)) for d in swl]], dict(op='iter', spec=sdesc))
+    ctx.count(('iter', trlib.to_line(str_)), nontrivial=nontriv, kind='iter',
+              sample=dict(op='iter', spec=sdesc, space_size=size, first=str(L[0]) if L else None, last=str(L[-1]) if L else None) if nontriv and si % 7 == 0 else None)
+    # (7) the specification list itself against the oracle's independent enumeration
+    add([7, str_, P['limit'] + 5], [[G.tree_tr(G.normalize(sd)) for sd in valid_sds]], dict(op='all_valid', spec=sdesc))
+    ctx.count(('all_valid', trlib.to_line(str_)), nontrivial=nontriv, kind='all_valid')
+    oracle_iter(ctx, s, pg, L, swl, size, valid_sds, members, sdesc); ctx.oracle += 1
+  else:
+    size = pg.space_size
+    add([0, str_, 0], [trlib.opt(None if size == -1 else size), [], []], dict(op='size', spec=sdesc))
+    ctx.count(('size', trlib.to_line(str_)), nontrivial=nontriv, kind='size')
+    if fin and size != nvalid:
+      ctx.hit('C11/size-differs-from-count/%s' % mode_key(s), 'space_size = %s but %d DNAs satisfy the constraints of %s' % (size, nvalid, sdesc), dict(op='size', spec=s))
+  has_custom = 'custom' in mode_key(s)
+  # (5) first_dna
+  if not has_custom:
+    add([5, str_], [G.tree_tr(G.dna_to_tree(pg.first_dna()))], dict(op='first', spec=sdesc))
+    ctx.count(('first', trlib.to_line(str_)), nontrivial=nontriv, kind='first')
+  # valid decisions to work on: next_dna on `nwork` of them, corruptions on `ncwork` of them
+  if valid_sds is not None and len(valid_sds) <= P['nwork']:
+    work = list(valid_sds)
+  else:
+    work = [G.random_sdna(rng, s) for _ in range(P['nwork'] - 2)]
+    if valid_sds: work += [valid_sds[0], valid_sds[-1]]
+  cwork = set(rng.sample(range(len(work)), min(P['ncwork'], len(work))))
+  ncorr = 0
+  for wi, sd in enumerate(work):
+    t = G.normalize(sd)
+    d = G.build_dna(sd)
+    # (6) valid + normalize: the library's constructor against the model's normalize
+    add([6, str_, G.sdna_tr(sd)], [1, G.tree_tr(G.dna_to_tree(d))], dict(op='normalize', spec=sdesc, dna=str(d)))
+    ctx.count(('norm', trlib.to_line(str_), trlib.to_line(G.sdna_tr(sd))), nontrivial=nontriv, kind='normalize')
+    # (2) next_dna (when the whole space was iterated every successor was already compared: only a few more)
+    if fin and (L is None or wi < 4):
+      nd = pg.next_dna(d)
+      add([2, str_, G.sdna_tr(sd)], [trlib.opt(None if nd is None else G.dna_to_tree(nd), G.tree_tr)], dict(op='next', spec=sdesc, dna=str(d)))
+      ctx.count(('next', trlib.to_line(str_), trlib.to_line(G.sdna_tr(sd))), nontrivial=nontriv, kind='next')
+    # (1) verdicts on the valid DNA itself and on its corruptions
+    trees = [('valid', t)] + (G.corruptions(rng, s, sd, limit=P['ncorr']) if wi in cwork else [])
+    for kind, raw in trees:
+      try:
+        dn = G.tree_to_dna(raw)
+      except Exception as e:   # the constructor refuses the tree (type check): not a DNA-shaped input
+        ctx.hist('corruption_unconstructible', type(e).__name__); continue
+      actual = G.dna_to_tree(dn)
+      v1, e1 = verdict(lambda: pg.validate(dn))
+      v2, e2 = verdict(lambda: dn.use_spec(pg))
+      add([1, qtr, str_, G.tree_tr(actual)], [1 - v1, 1 - v2], dict(op='validate/bind', spec=sdesc, kind=kind, tree=repr(actual)))
+      ctx.count(('verdict', trlib.to_line(str_), repr(actual)), nontrivial=True, kind='verdict:' + ('valid' if kind == 'valid' else 'corrupted'),
+                sample=dict(op='validate/bind', spec=sdesc, corruption=kind, tree=repr(actual), validate='accept' if v1 == 0 else e1, bind='accept' if v2 == 0 else e2) if kind != 'valid' and (ncorr + si) % 97 == 5 else None)
+      ncorr += 1
+      ctx.hist('corruption_kinds', kind)
+      ctx.hist('validate_outcome', e1 or 'accept'); ctx.hist('bind_outcome', e2 or 'accept')
+      oracle_verdict(ctx, s, sdesc, kind, actual, v1 == 0, v2 == 0, e1, e2, members); ctx.oracle += 1
+  # (3) random_dna with recorded draws
+  if not has_custom:
+    for seed_ in range(P['nseeds']):
+      rr = RecRandom(seed_ * 7919 + si)
+      rd = pg.random_dna(rr)
+      add([3, str_, rr.log], [G.tree_tr(G.dna_to_tree(rd)), 0], dict(op='random', spec=sdesc, seed=seed_))
+      ctx.count(('random', trlib.to_line(str_), seed_), nontrivial=nontriv, kind='random')
+      t = G.dna_to_tree(rd)
+      member = (G.freeze(t) in members) if members is not None else (G.parse_tree(s, t) is not None)
+      ctx.oracle += 1
+      if not member:
+        ctx.hit('C11/random-nonmember/%s' % mode_key(s), 'random_dna returned %r which is not a valid DNA of %s' % (t, sdesc), dict(op='random', spec=s, seed=seed_ * 7919 + si))
+  # (4) DNA ordering
+  if L is not None and len(L) >= 2:
+    pairs = [(L[i], L[i + 1]) for i in rng.sample(range(len(L) - 1), min(2, len(L) - 1))] + [(L[-1], L[0]), (L[0], L[0])]
+    for a, b in pairs:
+      add([4, G.tree_tr(G.dna_to_tree(a)), G.tree_tr(G.dna_to_tree(b))], [trlib.opt(cmp_impl(a, b))], dict(op='cmp', a=str(a), b=str(b)))
+      ctx.count(('cmp', str(a), str(b)), nontrivial=nontriv, kind='cmp')
+  return ctx
+
+def run_jobs(jobs, nproc):
+  import multiprocessing as mp
+  if nproc <= 1 or len(jobs) < 8:
+    return [process_spec(j) for j in jobs]
+  with mp.get_context('fork').Pool(nproc) as pool:
+    return pool.map(process_spec, jobs, chunksize=max(1, len(jobs) // (nproc * 8)))
+
 def run(ctx):
   ctx.build()
+  import os
   from pyglove.core import geno
   rng = ctx.rng
   q = detect_quirks(ctx)
   qtr = [int(q['float_bind_kids'])]
   ctx.extra['quirk_flags_from_witness_replay'] = q
-  LIMIT = ctx.scale(300, 6000)
+  P = dict(limit=ctx.scale(60, 400), nwork=ctx.scale(8, 14), ncwork=ctx.scale(3, 4), ncorr=ctx.scale(12, 30), nseeds=ctx.scale(3, 20))
+  ctx.extra['per_spec_parameters'] = P
   # ---- specifications ---------------------------------------------------------------------------
   small = G.small_specs()
-  ctx.extra['small_scope'] = dict(specs_in_scope=len(small), bounds='<= 3 decision points, <= 3 candidates, k <= 3, all distinct/sorted modes, nesting <= 2')
+  small2 = [s for s in small if G.count_points(s) <= 2]
+  small3 = [s for s in small if G.count_points(s) == 3]
+  ctx.extra['small_scope'] = dict(bounds='<= 3 decision points (a multi-choice counts once), <= 3 candidates, k <= 3, all distinct x sorted modes, conditional nesting <= 2',
+                                  specs_with_at_most_2_points=len(small2), specs_with_3_points=len(small3))
   if ctx.thorough:
-    chosen_small = small
-    ctx.extra['small_scope']['swept'] = 'all'
+    chosen_small = small2 + [small3[i] for i in sorted(rng.sample(range(len(small3)), 2500))]
+    ctx.extra['small_scope']['swept'] = 'every spec with <= 2 decision points (exhaustive) + a seeded sample of 2500 of the 3-point specs'
   else:
-    # a seeded sample, stratified so that every top-level shape appears
-    idx = sorted(rng.sample(range(len(small)), 330))
-    chosen_small = [small[i] for i in idx] + small[:40]
-    ctx.extra['small_scope']['swept'] = 'seeded sample of %d' % len(chosen_small)
+    chosen_small = [small2[i] for i in sorted(rng.sample(range(len(small2)), 70))] + [small3[i] for i in sorted(rng.sample(range(len(small3)), 50))]
+    ctx.extra['small_scope']['swept'] = 'seeded sample: 70 specs with <= 2 points, 50 with 3 points'
   rand_specs = []
-  for i in range(ctx.scale(120, 2500)):
+  for i in range(ctx.scale(40, 1200)):
     fin = rng.random() < 0.6
     rand_specs.append(G.random_spec(rng, budget=rng.choice([3, 4, 5, 6, 8]), d=rng.choice([2, 3, 3, 4]), allow_inf=not fin,
                                     max_cands=rng.choice([3, 4, 5]), max_k=3))
   specs = [(s, 'fixed') for s in FIXED_SPECS] + [(s, 'small') for s in chosen_small] + [(s, 'random') for s in rand_specs]
+  if os.environ.get('C11_MAXSPECS'):
+    specs = specs[::max(1, len(specs) // int(os.environ['C11_MAXSPECS']))]
+  jobs = [(si, s, origin, rng.getrandbits(48), qtr, P) for si, (s, origin) in enumerate(specs)]
+  nproc = int(os.environ.get('VERIF_JOBS', '12'))
+  recs = run_jobs(jobs, nproc)
+  ctx.log('implementation ran on %d specifications (%d worker processes)' % (len(specs), nproc))
   cases, impl, descr = [], [], []
+  ocount = 0
+  for r in recs:
+    cases += r.cases; impl += r.impl; descr += r.descr; ocount += r.oracle
+    for ev in r.events:
+      if ev[0] == 'count': ctx.count(ev[1], nontrivial=ev[2], sample=ev[3], kind=ev[4])
+      elif ev[0] == 'hist': ctx.hist(ev[1], ev[2], ev[3])
+      else: ctx.hit(ev[1], ev[2], ev[3])
   def add(case, out, d):
     cases.append(case); impl.append(out); descr.append(d)
-  ocount = [0]
-  for si, (s, origin) in enumerate(specs):
-    str_ = G.spec_tr(s)
-    try:
-      pg = G.to_pg(s)
-    except Exception as e:   # a generated spec the library refuses: generator bug, fail closed
-      raise RuntimeError('generated specification refused by the library: %s: %s' % (G.describe(s), e))
-    fin = G.is_finite(s)
-    sdesc = G.describe(s)
-    ctx.hist('spec_origin', origin); ctx.hist('spec_modes', mode_key(s)); ctx.hist('spec_points', G.count_points(s)); ctx.hist('spec_depth', G.depth(s))
-    nontriv = has_multi(s)
-    members = None
-    L = None
-    if fin:
-      valid_sds = G.all_valid(s)
-      ctx.hist('space_size_log2', len(valid_sds).bit_length())
-      members = {G.freeze(G.normalize(sd)) for sd in valid_sds}
-      if len(valid_sds) <= LIMIT:
-        # (0) iteration, size, sweeping
-        L = list(pg.iter_dna())
-        sw = geno.Sweeping(); sw.setup(pg)
-        swl = []
-        try:
-          for _ in range(len(L) + 2): swl.append(sw.propose())
-        except StopIteration:
-          pass
-        size = pg.space_size
-        add([0, str_, LIMIT + 5], [trlib.opt(None if size == -1 else size), [G.tree_tr(G.dna_to_tree(d)) for d in L],
-                                   [G.tree_tr(G.dna_to_tree(d)) for d in swl]], dict(op='iter', spec=sdesc))
-        ctx.count(('iter', trlib.to_line(str_)), nontrivial=nontriv, kind='iter',
-                  sample=dict(op='iter', spec=sdesc, space_size=size, first=str(L[0]) if L else None, last=str(L[-1]) if L else None) if nontriv and si % 7 == 0 else None)
-        # (7) the specification list itself against the oracle's independent enumeration
-        add([7, str_, LIMIT + 5], [[G.tree_tr(G.normalize(sd)) for sd in valid_sds]], dict(op='all_valid', spec=sdesc))
-        ctx.count(('all_valid', trlib.to_line(str_)), nontrivial=nontriv, kind='all_valid')
-        oracle_iter(ctx, s, pg, L, swl, size, valid_sds, members, sdesc); ocount[0] += 1
-    else:
-      size = pg.space_size
-      add([0, str_, 0], [trlib.opt(None if size == -1 else size), [], []], dict(op='size', spec=sdesc))
-      ctx.count(('size', trlib.to_line(str_)), nontrivial=False, kind='size')
-    has_custom = 'custom' in mode_key(s)
-    # (5) first_dna
-    if not has_custom:
-      add([5, str_], [G.tree_tr(G.dna_to_tree(pg.first_dna()))], dict(op='first', spec=sdesc))
-      ctx.count(('first', trlib.to_line(str_)), nontrivial=nontriv, kind='first')
-    # valid decisions to work on
-    if fin and len(valid_sds) <= ctx.scale(24, 80):
-      work = valid_sds
-    else:
-      work = [G.random_sdna(rng, s) for _ in range(ctx.scale(6, 16))]
-      if fin and valid_sds: work += [valid_sds[0], valid_sds[-1]]
-    ncorr = 0
-    for sd in work:
-      t = G.normalize(sd)
-      d = G.build_dna(sd)
-      # (6) valid + normalize: the library's constructor against the model's normalize
-      add([6, str_, G.sdna_tr(sd)], [1, G.tree_tr(G.dna_to_tree(d))], dict(op='normalize', spec=sdesc, dna=str(d)))
-      ctx.count(('norm', trlib.to_line(str_), trlib.to_line(G.sdna_tr(sd))), nontrivial=nontriv, kind='normalize')
-      # (2) next_dna
-      if fin:
-        nd = pg.next_dna(G.build_dna(sd))
-        add([2, str_, G.sdna_tr(sd)], [trlib.opt(None if nd is None else G.dna_to_tree(nd), G.tree_tr)], dict(op='next', spec=sdesc, dna=str(d)))
-        ctx.count(('next', trlib.to_line(str_), trlib.to_line(G.sdna_tr(sd))), nontrivial=nontriv, kind='next')
-      # (1) verdicts on the valid DNA itself and on its corruptions
-      trees = [('valid', t)] + G.corruptions(rng, s, sd, limit=ctx.scale(14, 40))
-      for kind, raw in trees:
-        try:
-          dn = G.tree_to_dna(raw)
-        except Exception as e:   # the constructor refuses the tree (type check): not a DNA-shaped input
-          ctx.hist('corruption_unconstructible', type(e).__name__); continue
-        actual = G.dna_to_tree(dn)
-        v1, e1 = verdict(lambda: pg.validate(dn))
-        dn2 = G.tree_to_dna(raw)
-        v2, e2 = verdict(lambda: dn2.use_spec(pg))
-        add([1, qtr, str_, G.tree_tr(actual)], [1 - v1, 1 - v2], dict(op='validate/bind', spec=sdesc, kind=kind, tree=repr(actual)))
-        ctx.count(('verdict', trlib.to_line(str_), repr(actual)), nontrivial=True, kind='verdict:' + ('valid' if kind == 'valid' else 'corrupted'),
-                  sample=dict(op='validate/bind', spec=sdesc, corruption=kind, tree=repr(actual), validate='accept' if v1 == 0 else e1, bind='accept' if v2 == 0 else e2) if kind != 'valid' and ncorr % 97 == 5 else None)
-        ncorr += 1
-        ctx.hist('corruption_kinds', kind)
-        ctx.hist('validate_outcome', e1 or 'accept'); ctx.hist('bind_outcome', e2 or 'accept')
-        oracle_verdict(ctx, s, sdesc, kind, actual, v1 == 0, v2 == 0, e1, e2, members); ocount[0] += 1
-    # (3) random_dna with recorded draws
-    if not has_custom:
-      for seed in range(ctx.scale(4, 20)):
-        rr = RecRandom(seed * 7919 + si)
-        rd = pg.random_dna(rr)
-        add([3, str_, rr.log], [G.tree_tr(G.dna_to_tree(rd)), 0], dict(op='random', spec=sdesc, seed=seed))
-        ctx.count(('random', trlib.to_line(str_), seed), nontrivial=nontriv, kind='random')
-        t = G.dna_to_tree(rd)
-        member = (G.freeze(t) in members) if members is not None else (G.parse_tree(s, t) is not None)
-        ocount[0] += 1
-        if not member:
-          ctx.hit('C11/random-nonmember/%s' % mode_key(s), 'random_dna returned %r which is not a valid DNA of %s' % (t, sdesc), dict(op='random', spec=s, seed=rr.getstate()[1][0]))
-    # (4) DNA ordering
-    if L is not None and len(L) >= 2:
-      pairs = [(L[i], L[i + 1]) for i in rng.sample(range(len(L) - 1), min(3, len(L) - 1))] + [(L[-1], L[0]), (L[0], L[0])]
-      for a, b in pairs:
-        add([4, G.tree_tr(G.dna_to_tree(a)), G.tree_tr(G.dna_to_tree(b))], [trlib.opt(cmp_impl(a, b))], dict(op='cmp', a=str(a), b=str(b)))
-        ctx.count(('cmp', str(a), str(b)), nontrivial=nontriv, kind='cmp')
   # ordering across shapes (ValueError when the children counts differ), mixed value types
   pool = [(1, []), (1.0, []), (1.5, []), ('a', []), ('b', []), (None, []), (0, [(1, []), (2, [])]), (0, [(1, []), (3, [])]), (0, [(1, [])]),
           (None, [(0, []), ('a', [])]), (None, [(0, []), (0.5, [])]), (2, [(0.5, [])])]
@@ -238,19 +280,22 @@ def run(ctx):
   outs = ctx.model_run(cases)
   look = {id(c): d for c, d in zip(cases, descr)}
   bad = ctx.compare('Geno.run vs pyglove.core.geno', cases, impl, outs, describe=lambda c: look.get(id(c)))
-  ctx.extra['oracle_evaluations'] = ocount[0]
+  ctx.extra['oracle_evaluations'] = ocount
   ctx.exhaustive = False
   if ctx.thorough:
-    ctx.extra['small_scope']['exhaustive'] = True
-  # targeted search when something is broken and the oracle found nothing yet: all valid DNAs of every small spec
+    ctx.extra['small_scope']['exhaustive_part'] = 'specs with <= 2 decision points'
+  # targeted search when something is broken and the oracle found nothing yet: iterate many more small specs with the oracle only
   if ctx.is_broken() and not ctx.hits:
-    for s in small[:: max(1, len(small) // 1500)]:
+    probe = Rec()
+    for s in small[:: max(1, len(small) // 400)]:
+      if G.size(s) > 120: continue
       pg = G.to_pg(s)
       vs = G.all_valid(s)
-      if len(vs) > 400: continue
       L = list(pg.iter_dna())
-      oracle_iter(ctx, s, pg, L, None, pg.space_size, vs, {G.freeze(G.normalize(sd)) for sd in vs}, G.describe(s))
-      if ctx.hits: break
+      oracle_iter(probe, s, pg, L, None, pg.space_size, vs, {G.freeze(G.normalize(sd)) for sd in vs}, G.describe(s))
+      if probe.events: break
+    for ev in probe.events:
+      if ev[0] == 'hit': ctx.hit(ev[1], ev[2], ev[3])
 
 def cmp_impl(a, b):
   try:
@@ -283,16 +328,16 @@ def oracle_iter(ctx, s, pg, L, swl, size, valid_sds, members, sdesc):
     ctx.hit('C11/sweeping-differs/%s' % mk, 'Sweeping proposes a different sequence than iter_dna for %s' % sdesc, case)
 
 def oracle_verdict(ctx, s, sdesc, kind, tree, val_ok, bind_ok, e1, e2, members):
-  parsed = G.parse_tree(s, tree)
-  member = parsed is not None
+  why = G.reject_reason(s, tree)
+  member = why is None
   if members is not None and member != (G.freeze(tree) in members):
     raise RuntimeError('oracle inconsistency: parse_tree and the enumerated member set disagree on %r for %s' % (tree, sdesc))
   case = dict(op='verdict', spec=s, tree=tree)
   if val_ok != member:
-    ctx.hit('C11/validate-%s/%s' % ('accepts-nonmember' if val_ok else 'rejects-member', kind),
+    ctx.hit('C11/validate-%s/%s' % ('accepts-nonmember' if val_ok else 'rejects-member', why or kind),
             'spec.validate %s %r (%s) for %s' % ('accepts the non-member' if val_ok else 'rejects (%s) the valid DNA' % e1, tree, kind, sdesc), case)
   if bind_ok != member:
-    ctx.hit('C11/bind-%s/%s' % ('accepts-nonmember' if bind_ok else 'rejects-member', kind),
+    ctx.hit('C11/bind-%s/%s' % ('accepts-nonmember' if bind_ok else 'rejects-member', why or kind),
             'DNA.use_spec %s %r (%s) for %s' % ('accepts the non-member' if bind_ok else 'rejects (%s) the valid DNA' % e2, tree, kind, sdesc), case)
 
 def _thaw(x):
